@@ -194,10 +194,28 @@ def rand_alignment(rng, nseq, length, p_noncanon, p_mut):
     return seqs
 
 
-def dist_case(names, seqs, calc, block, api=False):
+PROTEIN_STATES = "ACDEFGHIKLMNPQRSTUVWY"      # the canonical states of cogent3's protein moltype (20 amino acids + U)
+PROTEIN_CALCS = ["hamming", "pdist", "paralinear", "logdet", "logdet_notk"]
+
+
+def to_moltype(seq, moltype):
+    """the same nucleotide sequence written for the moltype (T <-> U)"""
+    return seq.replace("T", "U") if moltype == "rna" else seq.replace("U", "T") if moltype == "dna" else seq
+
+
+def dist_case(names, seqs, calc, block, api=False, moltype="dna"):
     c = dict(kind="dist", block=block, calc="logdet" if calc == "logdet_notk" else calc, calc_id=calc,
-             tk=(calc != "logdet_notk"), names=list(names), seqs=list(seqs), moltype="dna", api=api)
+             tk=(calc != "logdet_notk"), names=list(names), seqs=[to_moltype(x, moltype) for x in seqs], moltype=moltype, api=api)
     return c
+
+
+def rand_protein_alignment(rng, nseq, length, p_noncanon, p_mut):
+    base = [rng.choice(PROTEIN_STATES[:8]) for _ in range(length)]       # few states so that counts repeat
+    out = []
+    for _ in range(nseq):
+        out.append("".join(rng.choice("-X?BZ") if rng.random() < p_noncanon else
+                           (rng.choice(PROTEIN_STATES) if rng.random() < p_mut else ch) for ch in base))
+    return out
 
 
 def dist_cases(rng, tier):
@@ -219,6 +237,12 @@ def dist_cases(rng, tier):
     for names, seqs in corpus:
         for calc in CALCS:
             cases.append(dist_case(names, seqs, calc, "corpus", api=True))
+            cases.append(dist_case(names, seqs, calc, "corpus", api=True, moltype="rna"))
+    for names, seqs in [(["a", "b", "c"], ["ACDEFGHIKLACDEFG", "ACDEFGHIKMACDEFG", "MCDEFGHIKLACDEYG"]),
+                        (["a", "b", "c"], ["ACDE-GHIKL", "ACDEFGHIKL", "ACXEFGH?KL"]),
+                        (["a", "b"], ["ACDEF", "ACDEF"])]:
+        for calc in PROTEIN_CALCS:
+            cases.append(dist_case(names, seqs, calc, "corpus-protein", api=(calc != "logdet_notk"), moltype="protein"))
     # exhaustive small scope: every pair of length-2 sequences over {A,C,G,T,-} (quick: {A,G,T,-})
     alpha = "AGT-" if tier == "quick" else "ACGT-"
     words = ["".join(w) for w in itertools.product(alpha, repeat=2)]
@@ -228,8 +252,12 @@ def dist_cases(rng, tier):
         for w2 in words:
             calc = ex_calcs[k % len(ex_calcs)] if tier == "quick" else None
             k += 1
-            for cc in ([calc] if calc else ex_calcs):
-                cases.append(dist_case(["a", "b"], [w1, w2], cc, "exhaustive-pairs"))
+            for ci, cc in enumerate([calc] if calc else ex_calcs):
+                # the moltype alternates; TN93 (the only estimator that reads the purine / pyrimidine classes) gets both
+                mt = "rna" if (k + ci) % 2 else "dna"
+                cases.append(dist_case(["a", "b"], [w1, w2], cc, "exhaustive-pairs", moltype=mt))
+                if cc == "tn93":
+                    cases.append(dist_case(["a", "b"], [w1, w2], cc, "exhaustive-pairs", moltype="dna" if mt == "rna" else "rna"))
     # exhaustive triples of length-2 sequences over {A,C,-}: the duplicate shortcut in every constellation
     if tier != "quick":
         w3 = ["".join(w) for w in itertools.product("AC-", repeat=2)]
@@ -243,15 +271,25 @@ def dist_cases(rng, tier):
         seqs = rand_alignment(rng, nseq, length, rng.choice([0, 0, 0.05, 0.2, 0.5]), rng.choice([0.05, 0.2, 0.5, 0.9]))
         names = [f"s{i}" for i in range(nseq)]
         calc = rng.choice(CALCS)
-        base = dist_case(names, seqs, calc, "random", api=rng.random() < 0.2)
+        mt = rng.choice(["dna", "rna"])
+        other = "rna" if mt == "dna" else "dna"
+        base = dist_case(names, seqs, calc, "random", api=rng.random() < 0.2, moltype=mt)
         cases.append(base)
+        # the same alignment written for the other nucleic-acid moltype (T <-> U): same distances
+        cases.append(dist_case(names, seqs, calc, "random-other-moltype", api=rng.random() < 0.2, moltype=other))
         # metamorphic variants: the same alignment with its columns permuted / its sequences reordered
         cols = list(range(length))
         rng.shuffle(cols)
-        cases.append(dist_case(names, ["".join(s[c] for c in cols) for s in seqs], calc, "random-colperm"))
+        cases.append(dist_case(names, ["".join(s[c] for c in cols) for s in seqs], calc, "random-colperm", moltype=other))
         order = list(range(nseq))
         rng.shuffle(order)
-        cases.append(dist_case([names[i] for i in order], [seqs[i] for i in order], calc, "random-seqorder"))
+        cases.append(dist_case([names[i] for i in order], [seqs[i] for i in order], calc, "random-seqorder", moltype=mt))
+    for _ in range(8 if tier == "quick" else 80):
+        nseq = rng.choice([2, 3, 4])
+        seqs = rand_protein_alignment(rng, nseq, rng.choice([6, 15, 40]), rng.choice([0, 0.1]), rng.choice([0.1, 0.4]))
+        if nseq > 2 and rng.random() < 0.3:
+            seqs[-1] = seqs[0]
+        cases.append(dist_case([f"p{i}" for i in range(nseq)], seqs, rng.choice(PROTEIN_CALCS), "random-protein", moltype="protein"))
     return cases
 
 
@@ -332,6 +370,8 @@ def boundary_cases(rng, tier):
             s1, s2 = "".join(x for x, _ in v), "".join(y for _, y in v)
             for calc in ("tn93", "jc69"):
                 cases.append(dist_case(["a", "b"], [s1, s2], calc, "boundary:" + tag))
+                if calc == "tn93":
+                    cases.append(dist_case(["a", "b"], [s1, s2], calc, "boundary:" + tag, moltype="rna"))
     return cases
 
 
@@ -357,8 +397,11 @@ def history_cases(rng, tier):
                     seqs = rand_alignment(rng, nseq, length, 0, 0.5)
             names = [f"s{i}" for i in range(nseq)] if rng.random() < 0.5 else [f"{'xyzw'[s]}{i}" for i in range(nseq)]
             steps.append(dict(names=names, seqs=seqs))
+        mt = "rna" if k % 3 == 1 else "dna"
+        for st in steps:
+            st["seqs"] = [to_moltype(x, mt) for x in st["seqs"]]
         cases.append(dict(kind="dist_history", block="history", calc="logdet" if calc == "logdet_notk" else calc, calc_id=calc,
-                          tk=(calc != "logdet_notk"), steps=steps))
+                          tk=(calc != "logdet_notk"), steps=steps, moltype=mt))
     op_seqs = [["upgma", "nj"], ["nj", "upgma"], ["quick_tree", "quick_tree"], ["upgma", "upgma"], ["upgma", "quick_tree", "nj"],
                ["nj", "nj", "upgma", "upgma"]]
     nd = 12 if tier == "quick" else 90
@@ -367,6 +410,22 @@ def history_cases(rng, tier):
         n = rng.choice([3, 4, 5, 6])
         base = upgma_case_from_tree(rng, n, rng.choice(pool[n]), "dm-history")
         cases.append(dict(base, kind="dm_history", ops=op_seqs[k % len(op_seqs)]))
+    # every tip ORDER of a small ultrametric matrix through the constructors that do not sort the names
+    perms5 = list(itertools.permutations(range(5)))
+    if tier == "quick":
+        orders = [tuple(rng.sample(range(4), 4)) for _ in range(4)] + rng.sample(perms5, 10)
+    else:
+        orders = list(itertools.permutations(range(4))) + perms5
+    ctors = ["from_array_names", "take_dists", "dictarray"]
+    for k, perm in enumerate(orders):
+        n = len(perm)
+        base = upgma_case_from_tree(rng, n, rng.choice(pool[n]), "tip-order")
+        by = {nm: i for i, nm in enumerate(base["names"])}
+        names = [f"t{x}" for x in perm]                       # the row order asked for
+        mat = [[base["matrix"][by[a]][by[b]] for b in names] for a in names]
+        for ctor in (ctors if tier != "quick" else [ctors[k % 3], ctors[(k + 1) % 3]]):
+            ops = ["upgma"] if ctor == "dictarray" else ["upgma", "nj", "gnj", "quick_tree"]
+            cases.append(dict(base, kind="tree_order", names=names, matrix=mat, ctor=ctor, ops=ops))
     return cases
 
 
@@ -381,9 +440,9 @@ def qmat_lit(m) -> str:
     return "[" + ";".join("[" + ";".join(qlit(x) for x in row) + "]" for row in m) + "]"
 
 
-def coq_dist_case(c, order_seqs, strict):
+def coq_dist_case(c, order_seqs, strict, states_str=DNA_STATES):
     seqs = "[" + ";".join("[" + ";".join(str(ord(ch)) for ch in s) + "]" for s in order_seqs) + "]"
-    states = "[" + ";".join(str(ord(ch)) for ch in DNA_STATES) + "]"
+    states = "[" + ";".join(str(ord(ch)) for ch in states_str) + "]"
     return f"({'true' if strict else 'false'}, {CALC_CODE[c['calc_id']]}, {states}, (-9), {seqs})"
 
 
@@ -475,6 +534,23 @@ def close(a, b, tol=TOL):
 
 def det_exact(m):
     n = len(m)
+    if n > 4:          # fraction Gaussian elimination
+        a = [list(r) for r in m]
+        det = F(1)
+        for col in range(n):
+            piv = next((r for r in range(col, n) if a[r][col] != 0), None)
+            if piv is None:
+                return F(0)
+            if piv != col:
+                a[col], a[piv] = a[piv], a[col]
+                det = -det
+            det *= a[col][col]
+            for r in range(col + 1, n):
+                if a[r][col] != 0:
+                    fct = a[r][col] / a[col][col]
+                    for cc in range(col, n):
+                        a[r][cc] -= fct * a[col][cc]
+        return det
     tot = F(0)
     for perm in itertools.permutations(range(n)):
         sgn = 1
@@ -492,14 +568,24 @@ def det_exact(m):
 CANON = "ACGT"
 
 
-def oracle_pair(calc_id, s1, s2):
-    """published formula from plain counting.  Returns ("val", float) | ("undef", why) | ("skip", why)"""
+def oracle_pair(calc_id, s1, s2, moltype="dna"):
+    """published formula from plain counting.  Returns ("val", float) | ("undef", why) | ("skip", why).
+    Nucleic acids: written over the abstract classes purine {A, G} / pyrimidine {C, T=U}; an RNA sequence is read
+    with U = T, so the same alignment as DNA and as RNA has the same distances by construction."""
+    if moltype in ("dna", "rna"):
+        s1, s2 = s1.replace("U", "T"), s2.replace("U", "T")
+        canon = CANON
+    else:
+        canon = PROTEIN_STATES
+        if calc_id in ("jc69", "tn93"):
+            raise ValueError("nucleotide estimator on protein")
+    r_states = len(canon)
     cnt = {}
     for x, y in zip(s1, s2):
-        if x in CANON and y in CANON:
+        if x in canon and y in canon:
             cnt[(x, y)] = cnt.get((x, y), 0) + 1
     total = sum(cnt.values())
-    if [x if x in CANON else "*" for x in s1] == [y if y in CANON else "*" for y in s2]:
+    if [x if x in canon else "*" for x in s1] == [y if y in canon else "*" for y in s2]:
         return ("val", 0.0)       # the same sequence twice (interchangeable for every other comparison): 0
     if total == 0:
         return ("undef", "no column with two canonical states")
@@ -541,42 +627,46 @@ def oracle_pair(calc_id, s1, s2):
         k3 = 2 * (gR * gY - g["A"] * g["G"] * gY / gR - g["C"] * g["T"] * gR / gY)
         return ("val", -float(k1) * math.log(float(a1)) - float(k2) * math.log(float(a2)) - float(k3) * math.log(float(a3)))
     # paralinear / logdet: joint frequency matrix, with the documented replacement of a zero diagonal count by 0.5
-    J = [[F(cnt.get((a, b), 0)) for b in CANON] for a in CANON]
-    for k in range(4):
+    R = r_states
+    J = [[F(cnt.get((a, b), 0)) for b in canon] for a in canon]
+    for k in range(R):
         if J[k][k] == 0:
             J[k][k] = F(1, 2)
     s = sum(sum(r) for r in J)
     J = [[x / s for x in r] for r in J]
     dt = det_exact(J)
-    if abs(dt) < F(1, 10 ** 9):
+    rs = [sum(J[a][b] for b in range(R)) for a in range(R)]
+    cs = [sum(J[a][b] for a in range(R)) for b in range(R)]
+    scale = F(1)
+    for k in range(R):
+        scale *= rs[k]                      # |det| <= product of the row sums for a non-negative matrix
+    if abs(dt) < F(1, 10 ** 9) * (scale if R > 4 else 1):
         return ("skip", "determinant (numerically) zero: sign decided by rounding in numpy.linalg.det")
     if dt <= 0:
         return ("undef", "det <= 0")
-    rs = [sum(J[a][b] for b in range(4)) for a in range(4)]
-    cs = [sum(J[a][b] for a in range(4)) for b in range(4)]
-    prod = F(1)
-    for k in range(4):
-        prod *= rs[k] * cs[k]
-    core_ = math.log(float(dt) / math.sqrt(float(prod)))
+    # logarithms taken separately: for 21 states the determinant itself underflows the float range of the ratio
+    logdet_ = math.log(dt.numerator) - math.log(dt.denominator)
+    logprod = sum(math.log((rs[k] * cs[k]).numerator) - math.log((rs[k] * cs[k]).denominator) for k in range(R))
+    core_ = logdet_ - 0.5 * logprod
     if calc_id == "paralinear":
-        return ("val", -core_ / 4)
+        return ("val", -core_ / R)
     if calc_id == "logdet":
-        coeff = (sum(((rs[k] + cs[k]) / 2) ** 2 for k in range(4)) - 1) / 3
+        coeff = (sum(((rs[k] + cs[k]) / 2) ** 2 for k in range(R)) - 1) / (R - 1)
         return ("val", float(coeff) * core_)
     if calc_id == "logdet_notk":
-        return ("val", -math.log(float(dt)) / 4 - math.log(4))
+        return ("val", -logdet_ / R - math.log(R))
     raise ValueError(calc_id)
 
 
-def gapdiff_duplicates(seqs):
+def gapdiff_duplicates(seqs, canon="ACGTU"):
     """is there a pair with no difference on the columns where both are canonical but with different
     non-canonical patterns (or no comparable column at all)?  That is where the duplicate shortcut of
     _PairwiseDistance.run treats non-interchangeable sequences as duplicates."""
     def idx(s):
-        return [c if c in CANON else "*" for c in s]
+        return [c if c in canon else "*" for c in s]
     for a in range(len(seqs)):
         for b in range(a + 1, len(seqs)):
-            nodiff = all(x == y for x, y in zip(seqs[a], seqs[b]) if x in CANON and y in CANON)
+            nodiff = all(x == y for x, y in zip(seqs[a], seqs[b]) if x in canon and y in canon)
             if nodiff and idx(seqs[a]) != idx(seqs[b]):
                 return True
     return False
@@ -594,11 +684,14 @@ def check_dist(rep, c, ir, mr, stats):
     pos = {n: i for i, n in enumerate(c["names"])}
     seqs = [c["seqs"][pos[n]] for n in order]
     n = len(order)
+    mt = c.get("moltype", "dna")
+    _orc = oracle_pair
+    oracle_pair_mt = lambda cid, x, y: _orc(cid, x, y, mt)      # noqa: E731
     pairs = [(a, b) for a in range(n) for b in range(n) if a != b]
     # --- specification oracle on every ordered pair (symmetry, order invariance, formula)
     for k, (a, b) in enumerate(pairs):
         stats["evaluations"] += 1
-        o = oracle_pair(c["calc_id"], seqs[a], seqs[b])
+        o = oracle_pair_mt(c["calc_id"], seqs[a], seqs[b])
         iv = ir["cells"][k]
         iv = None if iv == "absent" else iv
         if o[0] == "skip":
@@ -611,7 +704,7 @@ def check_dist(rep, c, ir, mr, stats):
             # the known defect of the pinned duplicate shortcut: only when the alignment has a no-difference
             # pair with different non-canonical positions AND the observed value is the one the model of
             # that shortcut predicts; everything else gets its own key
-            shortcut = (gapdiff_duplicates(seqs) and mr is not None and close(iv, model_cell_value(mr[0][k])))
+            shortcut = (gapdiff_duplicates(seqs, "ACGTU" if mt != "protein" else PROTEIN_STATES) and mr is not None and close(iv, model_cell_value(mr[0][k])))
             key = ("dist:duplicate-shortcut:noncanonical" if shortcut
                    else f"dist:{c['calc_id']}:{'undefined-expected' if exp is None else 'value'}")
             rep.violation(key, dict(case=c, pair=[order[a], order[b]], expected_by_spec=exp if o[0] == "val" else f"undefined ({o[1]})",
@@ -619,6 +712,9 @@ def check_dist(rep, c, ir, mr, stats):
                                     broken="pairwise distance differs from the published formula evaluated on the "
                                            "plain column counts of the two sequences"))
             stats["spec_violations"] += 1
+    want_states = {"dna": "ACGT", "rna": "ACGU", "protein": PROTEIN_STATES}[mt]
+    if sorted(ir["states"]) != sorted(want_states):
+        rep.violation("dist:states", dict(case=c, expected_by_spec=want_states, observed_impl=ir["states"], broken="canonical states of the moltype"))
     if any(x not in (0.0, 0) for x in ir["diag"]):
         rep.violation("dist:nonzero-diagonal", dict(case=c, observed_impl=ir["diag"], broken="zero diagonal"))
     if ir.get("dm_names") is not None and ir["dm_names"] != sorted(c["names"]):
@@ -631,7 +727,7 @@ def check_dist(rep, c, ir, mr, stats):
     for a in range(n):
         for b in range(a + 1, n):
             d = ir["direct"][kk]
-            exp_counts = [[sum(1 for x, y in zip(seqs[a], seqs[b]) if x == s and y == t) for t in DNA_STATES] for s in DNA_STATES]
+            exp_counts = [[sum(1 for x, y in zip(seqs[a], seqs[b]) if x == s and y == t) for t in ir["states"]] for s in ir["states"]]
             if d["counts"] != exp_counts or d["counts_py"] != exp_counts:
                 rep.violation("dist:diversity-matrix", dict(case=c, pair=[order[a], order[b]], expected_by_spec=exp_counts,
                                                             observed_impl=[d["counts"], d["counts_py"]],
@@ -644,7 +740,7 @@ def check_dist(rep, c, ir, mr, stats):
         iv = ir["cells"][k]
         iv = None if iv == "absent" else iv
         mv = model_cell_value(mr[0][k])
-        if not close(iv, mv) and oracle_pair(c["calc_id"], seqs[a], seqs[b])[0] != "skip":
+        if not close(iv, mv) and oracle_pair_mt(c["calc_id"], seqs[a], seqs[b])[0] != "skip":
             dis.append(dict(key=f"dist:{c['calc_id']}:cell", case=c, pair=[order[a], order[b]], observed_impl=iv, model_output=mv))
     kk = 0
     for a in range(n):
@@ -657,7 +753,7 @@ def check_dist(rep, c, ir, mr, stats):
             if c["calc_id"] == "pdist" and mres is not None and mres != "nan":
                 mv = float(F(mres[1][0], mres[1][1]))
             iv = d["dist"] if c["calc_id"] != "pdist" else d["p"]
-            illcond = c["calc_id"] in ("paralinear", "logdet", "logdet_notk", "tn93") and oracle_pair(c["calc_id"], seqs[a], seqs[b])[0] == "skip"
+            illcond = c["calc_id"] in ("paralinear", "logdet", "logdet_notk", "tn93") and oracle_pair_mt(c["calc_id"], seqs[a], seqs[b])[0] == "skip"
             if not illcond and not close(iv, mv):
                 dis.append(dict(key=f"dist:{c['calc_id']}:func", case=c, pair=[order[a], order[b]], observed_impl=iv, model_output=mv))
             if mres is not None and mres != "nan" and d["total"] is not None:
@@ -867,7 +963,7 @@ def check_dist_history(rep, c, ir, stats):
                 continue
             if "error" in r:
                 # the app refuses alignments with an incalculable pair (NotCompleted); that is its documented behaviour
-                if not any(oracle_pair(c["calc_id"], seqs[a], seqs[b])[0] != "val" for a, b in pairs):
+                if not any(oracle_pair(c["calc_id"], seqs[a], seqs[b], c.get("moltype", "dna"))[0] != "val" for a, b in pairs):
                     rep.violation(f"dist:history:{mode}:failed", dict(case=c, step=si, observed_impl=r, broken="app failed although every pair is defined"))
                 continue
             stats["evaluations"] += len(pairs)
@@ -877,7 +973,7 @@ def check_dist_history(rep, c, ir, stats):
                 stats["spec_violations"] += 1
                 continue
             for k, (a, b) in enumerate(pairs):
-                o = oracle_pair(c["calc_id"], seqs[a], seqs[b])
+                o = oracle_pair(c["calc_id"], seqs[a], seqs[b], c.get("moltype", "dna"))
                 iv = r["cells"][k]
                 iv = None if iv == "absent" else iv
                 fv = obs["fresh"]["cells"][k]
@@ -927,6 +1023,41 @@ def check_dm_history(rep, c, ir, stats):
         elif op == "upgma" and any(abs(dp - c["root_height"]) > TOL for _, dp in obs["tree"]["depths"]):
             rep.violation("dm-history:upgma:heights", dict(case=c, step=si, ops=c["ops"], expected_by_spec=c["root_height"], observed_impl=obs["tree"]["depths"],
                                                            broken="root-to-tip depth differs from the generating tree's root height"))
+            stats["spec_violations"] += 1
+
+
+def check_tree_order(rep, c, ir, stats):
+    if "exc" in ir:
+        rep.violation("tree-order:raised", dict(case=c, observed_impl=ir, broken="runner failed"))
+        return
+    names, n = c["names"], c["n"]
+    stats["nontrivial"].add(json.dumps([names, c["matrix"], c["ctor"]]))
+    for obs in ir["steps"]:
+        stats["evaluations"] += 1
+        op = obs["op"]
+        what = f"tree-order:{c['ctor']}:{op}"
+        if "exc" in obs:
+            rep.violation(what + ":raised", dict(case=c, observed_impl=obs, broken="tree builder raised on a valid distance object"))
+            stats["spec_violations"] += 1
+            continue
+        if obs.get("input_unchanged") is False:
+            rep.violation(what + ":input-modified", dict(case=c, broken="inputs are not modified"))
+            stats["spec_violations"] += 1
+        dm = tree_dist_map(obs["tree"]["dists"])
+        bad = None
+        for a in range(n):
+            for b in range(a + 1, n):
+                got = dm.get(frozenset((names[a], names[b])))
+                if got is None or abs(got - c["matrix"][a][b]) > TOL:
+                    bad = (names[a], names[b], c["matrix"][a][b], got)
+        if bad:
+            rep.violation(what + ":distances-by-name", dict(case=c, op=op, expected_by_spec=f"d({bad[0]},{bad[1]}) = {bad[2]}", observed_impl=bad[3],
+                          object_names=obs.get("obj_names"),
+                          broken="tip-to-tip distance BY NAME in the tree built from a distance object whose rows are not in sorted name order"))
+            stats["spec_violations"] += 1
+        elif op == "upgma" and sorted(sorted(x) for x in c["gen_clades"]) != sorted(obs["tree"]["clades"]):
+            rep.violation(what + ":topology", dict(case=c, expected_by_spec=sorted(sorted(x) for x in c["gen_clades"]), observed_impl=obs["tree"]["clades"],
+                                                   broken="clades (by name) of the UPGMA tree differ from the generating tree"))
             stats["spec_violations"] += 1
 
 
@@ -986,12 +1117,14 @@ def run_models(cases, impl, strict=False):
     out = [None] * len(cases)
     own = [None] * len(cases)
     # distances
-    idx = [i for i, c in enumerate(cases) if c["kind"] == "dist" and "exc" not in impl[i]]
+    # the 4-state determinant model covers paralinear / LogDet for nucleic acids only; counting estimators any alphabet
+    idx = [i for i, c in enumerate(cases) if c["kind"] == "dist" and "exc" not in impl[i]
+           and (c.get("moltype", "dna") in ("dna", "rna") or c["calc_id"] in ("hamming", "pdist"))]
     terms = []
     for i in idx:
         c = cases[i]
         pos = {n: k for k, n in enumerate(c["names"])}
-        terms.append(coq_dist_case(c, [c["seqs"][pos[n]] for n in impl[i]["order"]], strict))
+        terms.append(coq_dist_case(c, [c["seqs"][pos[n]] for n in impl[i]["order"]], strict, impl[i]["states"]))
     res = core.coq_eval(PROP, ["Model.Dist", "Model.DistRun"], "run_dist_case", terms, "bool * Z * list Z * Z * list (list Z)", shard=150, tag="d")
     for i, r in zip(idx, res):
         out[i] = r
@@ -1038,7 +1171,9 @@ PARTIAL = [
     "the published formulas themselves: the model transcribes the code's formula; equality with the literature's formula is "
     "checked by the independent Python oracle on the sampled alignments (tolerance 1e-9), not proved",
     "IEEE-754 rounding, numpy.log / numpy.linalg.det / numba compilation: compared with tolerance 1e-9, not proved",
-    "protein / 20-state calculators and the variance statistics: not modelled; gnj with keep > 1: not modelled",
+    "protein (21-state) paralinear / LogDet: compared with the exact-fraction oracle only (the Coq determinant model is 4-state); "
+    "protein hamming / p-distance and all RNA calculators go through the model as well; variance statistics and gnj with "
+    "keep > 1: not modelled",
 ]
 
 
@@ -1059,7 +1194,12 @@ def run(tier: str, seed: int) -> int:
                         "intermediates (so the float computation is exact too), with their one-column neighbours; paralinear / "
                         "LogDet pairs whose exact determinant is 0 are NOT asserted (numpy.linalg.det decides their sign by rounding)",
                         "tree inputs: additive / ultrametric matrices from trees with positive dyadic branch lengths",
-                        "nucleotide (DNA) alignments for the calculators"]
+                        "every distance block runs over the moltype dimension: dna and rna for all estimators (the oracle is written over "
+                        "the abstract classes purine {A,G} / pyrimidine {C,T=U}, so the same alignment as DNA and as RNA must give the "
+                        "same distances), protein for hamming / pdist / paralinear / LogDet",
+                        "tree builders are also fed distance objects whose rows are NOT in sorted name order (DistanceMatrix.from_array_names, "
+                        "take_dists of such a matrix, DictArray.from_array_names): every order of 4 and 5 tips in the thorough tier, a "
+                        "sample in quick; oracle = tip-to-tip distances and clades BY NAME"]
     proof_broken = bool(pr["problems"])
     variant = dup_rule_variant()
     if variant == "unknown":
@@ -1111,6 +1251,8 @@ def run(tier: str, seed: int) -> int:
             disagreements += check_upgma(rep, c, ir, mr, stats)
         elif c["kind"] == "dist_history":
             check_dist_history(rep, c, ir, stats)
+        elif c["kind"] == "tree_order":
+            check_tree_order(rep, c, ir, stats)
         else:
             check_dm_history(rep, c, ir, stats)
     import os
@@ -1167,6 +1309,8 @@ def replay(path: str) -> int:
         check_upgma(rep, c, ir, None, stats)
     elif c["kind"] == "dist_history":
         check_dist_history(rep, c, ir, stats)
+    elif c["kind"] == "tree_order":
+        check_tree_order(rep, c, ir, stats)
     else:
         check_dm_history(rep, c, ir, stats)
     print("impl  :", json.dumps(ir)[:1500])
